@@ -179,4 +179,15 @@ theorem sqrt_eq (z x : Dec) (hexp : -2147483648 ≤ x.exp ∧ x.exp ≤ 21474836
     by_cases h0 : z.prec = 0 <;> rcases hm with hm | hm | hm <;>
       (simp [hf, hn, h0, hm, hd, hw]; rw [hr] at hm; rw [hq]; omega)
 
+/-! ### `MinPrec` -/
+
+/-- `MinPrec` in wrapping uint arithmetic is the model's `minPrec` (a number has no more trailing zeros than digits). -/
+theorem minPrec_eq (x : Dec) (hlen : x.len < 1099511627776) (htz : trailingZeros x.mant ≤ x.len * 19) :
+    Gen.Facts.MinPrec x.form.toNat x.len (trailingZeros x.mant) = minPrec x := by
+  have harith : ((((Int.toNat ((x.len : Int) % 18446744073709551616)) * 19) % 18446744073709551616) + 18446744073709551616
+      - trailingZeros x.mant) % 18446744073709551616 = x.len * 19 - trailingZeros x.mant := by omega
+  unfold Gen.Facts.MinPrec minPrec DW
+  rw [harith]
+  cases hf : x.form <;> rfl
+
 end Decimal.GenConv
